@@ -201,6 +201,9 @@ class TGen:
 
     def var(self):
         self.k += 1
+        if self.r.random() < 0.35:
+            self.interesting = True
+            return self.r.choice(["e", "x", "j"])  # may shadow the enclosing lambda's parameter (of another type)
         return f"v{self.k}"
 
     def expr(self, text, t, d, want=None):
